@@ -93,6 +93,15 @@ def assignable (c : Ctx) (t v : GTy) : Bool :=
     | _ => ms.isEmpty
   | none => false
 
+/-- a numeric literal, or an arithmetic expression of numeric literals: in Go an **untyped constant**.  The Go AST carries a
+    type annotation on every literal, the printed text does not (`42`, `0.5`). -/
+def untypedConst : GExpr → Bool
+  | .int _ _ => true
+  | .float _ _ => true
+  | .un .neg _ e => untypedConst e
+  | .bin op _ l r => (op == .add || op == .sub || op == .mul || op == .div) && untypedConst l && untypedConst r
+  | _ => false
+
 def isNilable (c : Ctx) (t : GTy) : Bool :=
   match norm t with
   | .ptr _ | .slice _ | .func _ _ => true
@@ -126,6 +135,13 @@ structure Scope where
 
 def Scope.err (s : Scope) (code site : String) (detail : String := "") : Scope :=
   { s with errs := s.errs ++ [{ code, site, detail }] }
+
+/-- **`untyped-constant-in-interface`**: an untyped numeric constant stored where an interface type (`any`, the `data` field of
+    a trait object, an enum's interface) is expected takes Go's *default* type — `int`, `float64` — not the type the Go AST
+    annotates the literal with: `var x any = 42` holds an `int`, and a later assertion `x.(int32)` panics.  Real Go accepts
+    the program; the rule flags the place where its behaviour differs from what the annotated AST (and `Go.Sem`) says. -/
+def Scope.constIface (s : Scope) (c : Ctx) (fn : String) (t : GTy) (e : GExpr) (what : String) : Scope :=
+  if (c.isIface t).isSome && untypedConst e then s.err "untyped-constant-in-interface" fn what else s
 
 def Scope.lookup (s : Scope) (x : String) : Option GTy :=
   (s.vars.find? (·.1 == x)).map (·.2.1)
@@ -233,7 +249,8 @@ partial def tyOf (c : Ctx) (fn : String) (s : Scope) (e : GExpr) : Scope × Opti
             let s := rest.foldl (fun s r =>
               let (s, tr) := tyOf c fn s r
               match ta.map norm, tr with
-              | some (.slice el), some tr => if assignable c el tr then s else s.err "append-element-mismatch" fn
+              | some (.slice el), some tr =>
+                if assignable c el tr then s.constIface c fn el r "append element" else s.err "append-element-mismatch" fn
               | _, _ => s) s
             (s, ta)
           | _, _ => callOf c fn s f args
@@ -307,7 +324,7 @@ partial def tyOf (c : Ctx) (fn : String) (s : Scope) (e : GExpr) : Scope × Opti
             let (s, te) := tyOf c fn s e
             match fs.find? (·.1 == f), te with
             | some (_, ft), some te =>
-              if assignable c ft te then s
+              if assignable c ft te then s.constIface c fn ft e ("field " ++ n ++ "." ++ f)
               else s.err "assign-mismatch" fn ("field " ++ n ++ "." ++ f ++ ": want " ++ reprStr (norm ft) ++ " got " ++ reprStr (norm te))
             | none, _ => s.err "no-such-field" fn (n ++ "." ++ f)
             | _, none => s) s
@@ -323,7 +340,7 @@ partial def tyOf (c : Ctx) (fn : String) (s : Scope) (e : GExpr) : Scope × Opti
       let (s, te) := tyOf c fn s e
       match el, te with
       | some el, some te =>
-        if assignable c el te then s
+        if assignable c el te then s.constIface c fn el e "array element"
         else s.err "assign-mismatch" fn ("array element: want " ++ reprStr (norm el) ++ " got " ++ reprStr (norm te))
       | _, _ => s) s
     (s, some t)
@@ -343,11 +360,11 @@ partial def callOf (c : Ctx) (fn : String) (s : Scope) (f : GExpr) (args : List 
       if targs.length < ps.length then (s.err "too-few-arguments" fn, some r) else (s, some r)
     else if ps.length != targs.length then (s.err "argument-count" fn, some r)
     else
-      let s := (ps.zip targs).foldl (fun (s : Scope) (pa : GTy × Option GTy) =>
-        let (p, a) := pa
+      let s := (ps.zip (targs.zip args)).foldl (fun (s : Scope) (pa : GTy × Option GTy × GExpr) =>
+        let (p, a, ea) := pa
         match a with
         | some a =>
-          if assignable c p a then s
+          if assignable c p a then s.constIface c fn p ea "call argument"
           else s.err "assign-mismatch" fn ("call argument: want " ++ reprStr (norm p) ++ " got " ++ reprStr (norm a))
         | none => s) s
       (s, some r)
@@ -401,7 +418,7 @@ partial def checkStmt (c : Ctx) (fn : String) (ret : Option GTy) (s : Scope) (st
           if tyEq te .void then s.err "void-value-used" fn x
           else if (match e with | .nil _ => true | _ => false) then
             (if isNilable c t then s else s.err "nil-to-non-nilable" fn x)
-          else if assignable c t te then s
+          else if assignable c t te then s.constIface c fn t e ("var " ++ x)
           else s.err "assign-mismatch" fn ("var " ++ x ++ ": want " ++ reprStr (norm t) ++ " got " ++ reprStr (norm te))
         | none => s
       | none => s
@@ -415,7 +432,7 @@ partial def checkStmt (c : Ctx) (fn : String) (ret : Option GTy) (s : Scope) (st
     match s.lookup x, te with
     | some t, some te =>
       if tyEq te .void then s.err "void-value-used" fn x
-      else if assignable c t te then s
+      else if assignable c t te then s.constIface c fn t e ("assign " ++ x)
       else s.err "assign-mismatch" fn ("assign " ++ x ++ ": want " ++ reprStr (norm t) ++ " got " ++ reprStr (norm te))
     | none, _ => s.err "undeclared" fn x
     | _, none => s
@@ -423,13 +440,15 @@ partial def checkStmt (c : Ctx) (fn : String) (ret : Option GTy) (s : Scope) (st
     let (s, tt) := tyOf c fn s target
     let (s, te) := tyOf c fn s e
     match tt, te with
-    | some tt, some te => if assignable c tt te then s else s.err "assign-mismatch" fn "field assignment"
+    | some tt, some te =>
+      if assignable c tt te then s.constIface c fn tt e "field assignment" else s.err "assign-mismatch" fn "field assignment"
     | _, _ => s
   | .ptrAssign p e =>
     let (s, tp) := tyOf c fn s p
     let (s, te) := tyOf c fn s e
     match tp.map norm, te with
-    | some (.ptr el), some te => if assignable c el te then s else s.err "assign-mismatch" fn "pointer assignment"
+    | some (.ptr el), some te =>
+      if assignable c el te then s.constIface c fn el e "pointer assignment" else s.err "assign-mismatch" fn "pointer assignment"
     | some _, _ => s.err "deref-non-pointer" fn
     | _, _ => s
   | .indexAssign arr idx e =>
@@ -438,7 +457,7 @@ partial def checkStmt (c : Ctx) (fn : String) (ret : Option GTy) (s : Scope) (st
     let (s, te) := tyOf c fn s e
     match ta.map norm, te with
     | some (.array _ el), some te | some (.slice el), some te =>
-      if assignable c el te then s else s.err "assign-mismatch" fn "index assignment"
+      if assignable c el te then s.constIface c fn el e "index assignment" else s.err "assign-mismatch" fn "index assignment"
     | _, _ => s
   | .ret e =>
     match e, ret with
@@ -449,7 +468,7 @@ partial def checkStmt (c : Ctx) (fn : String) (ret : Option GTy) (s : Scope) (st
       let (s, te) := tyOf c fn s e
       match te with
       | some te =>
-        if assignable c rt te then s
+        if assignable c rt te then s.constIface c fn rt e "return"
         else s.err "assign-mismatch" fn ("return: want " ++ reprStr (norm rt) ++ " got " ++ reprStr (norm te))
       | none => s
   | .ite cnd t e =>
